@@ -332,8 +332,8 @@ class C15(Check):
     prop = "C15"
     props_file = "Props/C15.v"
     models = ["RateCounter", "Aimd", "Rbe"]
-    quick_cases = 700
-    thorough_cases = 16000
+    quick_cases = 500
+    thorough_cases = 10000
     case_timeout = 20.0
     level_note = (
         "Theorems are about Model/RateCounter.v (exact integers), Model/Aimd.v and Model/Rbe.v (integer skeleton of "
